@@ -29,6 +29,15 @@ pub fn take_events() -> Vec<String> {
     SINK.lock().unwrap().take().unwrap_or_default()
 }
 
+/// Returns the events recorded so far and keeps recording (nothing emitted in between is lost).
+pub fn drain_events() -> Vec<String> {
+    SINK.lock()
+        .unwrap()
+        .as_mut()
+        .map(std::mem::take)
+        .unwrap_or_default()
+}
+
 /// Is a recorder installed.
 pub fn is_recording() -> bool {
     SINK.lock().unwrap().is_some() || file_sink().is_some()
